@@ -7,7 +7,7 @@ Does not decide: first-key index arithmetic, duplicates across block boundaries 
 import re
 
 from mir import pl_fields, operand_places
-from tmpl import site, suffix
+from tmpl import site, suffix, flows_from, local_defs
 
 BUILD = 'executor::Builder::<S>::build_id_subscriber'
 START_ROWID = 'storage::secondary::rowset::disk_rowset::DiskRowset::start_rowid::{closure#0}'
@@ -89,3 +89,66 @@ def run(ctx):
                f'type-relating calls on the range path: {[c.name for c in typed]}', [prog.bodies[ANALYZE].loc],
                what='a range bound keeps the literal\'s type: `bigint_key > 1` compares Int64 keys with an Int32 bound through the '
                     'derived cross-variant order, so every row (or none) passes')
+    mask_rule(ctx, prog)
+
+
+def mask_rule(ctx, prog):
+    """C13-R4: the per-row mask of a range scan applies BOTH bounds and tells Included from Excluded"""
+    R4 = 'C13-R4'
+    NB = 'storage::secondary::rowset::rowset_iterator::RowSetIterator::next_batch_inner::{closure#0}'
+    ctx.rule(R4, 'RowSetIterator::next_batch_inner masks the rows of each batch with both bounds of the KeyRange: there is a match '
+                 'on KeyRange::start and one on KeyRange::end, each with separate, non-diverging arms for Included / Excluded / '
+                 'Unbounded, and both results flow into the visibility map handed to StorageChunk::construct (the seek to the '
+                 'start row and the early stop are only optimisations on top of this mask)')
+    b = prog.body(NB)
+    if not ctx.anchor(R4, NB, b is not None):
+        return
+    ctx.functions_analysed.add(b.name)
+    sw = {}
+    for i, bl in enumerate(b.blocks):
+        t = bl['term']
+        if t['k'] != 'switch' or t.get('adt') != 'std::ops::Bound' or not t.get('on'):
+            continue
+        # which KeyRange field is matched?
+        fields = set(pl_fields(t['on']))
+        for bb, kind, payload in local_defs(b, t['on']['l']):
+            if kind == 'assign':
+                for pl in operand_places(payload):
+                    fields |= set(pl_fields(pl))
+        for side in ('start', 'end'):
+            if any(f.endswith('KeyRange::' + side) for f in fields):
+                sw.setdefault(side, []).append((i, t))
+    for side in ('start', 'end'):
+        if not ctx.anchor(R4, f'next_batch_inner: match on KeyRange::{side}', sw.get(side)):
+            continue
+        for i, t in sw[side]:
+            names = t.get('variants', {})
+            tg = {names.get(str(v)): x for v, x in t['targets']}
+            for v in ('Included', 'Excluded', 'Unbounded'):
+                if v not in tg and t.get('otherwise') is not None:
+                    tg[v] = t['otherwise']
+            # an or-pattern `Included(k) | Excluded(k)` still has one target per variant; what must differ is the code they run
+            eff = {v: first_effect(b, tg[v]) for v in ('Included', 'Excluded', 'Unbounded') if tg.get(v) is not None}
+            distinct = len(set(eff.values())) == 3
+            alive = all(tg.get(v) is not None and not b.diverges(tg[v]) for v in ('Included', 'Excluded', 'Unbounded'))
+            ctx.ob(R4, f'mask·{side}·arms', distinct and alive,
+                   f'match on KeyRange::{side} (block {i}): arms {tg}; Included and Excluded must be told apart and none may diverge',
+                   [site(b, i)])
+    cons = [c for c in b.calls if (c.fn or '').endswith('StorageChunk::construct')]
+    if ctx.anchor(R4, 'next_batch_inner: StorageChunk::construct', cons):
+        for side in ('start', 'end'):
+            def reads_bound(kind, payload, bb, side=side):
+                return any(f.endswith('KeyRange::' + side) for pl in operand_places(payload) for f in pl_fields(pl))
+            ok = all(c.args and c.args[0]['k'] != 'const' and flows_from(b, c.args[0]['pl']['l'], reads_bound, depth=40) for c in cons)
+            ctx.ob(R4, f'mask·{side}·reaches-visibility-map', ok,
+                   f'the visibility map given to StorageChunk::construct must derive from KeyRange::{side}',
+                   [site(b, cons[0].bb)],
+                   what=f'the {side} bound of a pushed key range is not applied to the rows of a batch: rows outside the range are returned')
+
+
+def first_effect(b, bb, limit=12):
+    """first block, following plain gotos from bb, that ends in something other than a goto"""
+    while limit and b.blocks[bb]['term']['k'] == 'goto':
+        bb = b.blocks[bb]['term']['target'] if 'target' in b.blocks[bb]['term'] else b.succs[bb][0]
+        limit -= 1
+    return bb
